@@ -11,7 +11,9 @@ class SPEC:
             "AddRecordWithExtraElements(k), AddRecordV2 with element lists drawn from the registry (well-typed values; empty values "
             "for template records), UpdateLenInHeader, ResetSet, observe}. Each sequence is run (a) on a long-lived set with a random "
             "prefix before a reset, (b) on a brand-new set, (c) with every add replaced by each of the other two add paths; all must "
-            "give the same observations (type, length, header, record buffers, CreateIPFIXMsg bytes). Non-trivial = at least one reset "
+            "give the same observations (type, length, header, record buffers, CreateIPFIXMsg bytes); the list of records taken out of the "
+            "set (GetRecords) right before a reset is kept by the harness and must read the same at every later observation (a new set "
+            "shares nothing with the old message, so a reset one must not either). Non-trivial = at least one reset "
             "followed by adds; distinct by hash.")
     assumptions = ["element values are not mutated after they were added (the cached data-record buffer would go stale)"]
     trusted = []
